@@ -17,6 +17,9 @@ def run(rep):
     rep.guard(s1, rep, w)
     rep.guard(s2, rep, w)
     rep.guard(s12, rep, w)
+    rep.guard(s13, rep, w)
+    import c14
+    rep.guard(c14.m2, rep, w)     # a name that is not a local or an upvalue is a global of the module the code was written in, and of no other module
     rep.guard(s3, rep, w)
     rep.guard(s4, rep, w)
     rep.guard(s5, rep, w)
@@ -185,6 +188,26 @@ def s12(rep, w, prop='C06'):
                     'captured one is taken off by the other\'s Pop, its upvalue stays open, and closures read whatever reuses the slot' % p_, f.loc(f.blocks[bi]['t'].get('sp')))
     if n == 0:
         raise Broken(prop, 'floor', 'S12: no scope-exit emission loop found')
+
+
+def s13(rep, w):
+    """every evaluation of a function expression creates a closure of its own: its captures are those of *this* activation of the enclosing
+    function (a cached closure of an earlier activation shares that activation's variables - two counters made by one factory count together).
+    The Closure instruction pushes the object it has just allocated, nothing remembered."""
+    r = rep.rule('S13', 'the Closure instruction pushes a closure allocated by that very execution', floor=1)
+    f = w.require_fn(VM + 'closure_impl', 'C06')
+    org = origins(f)
+    pushes = [(bi, t) for bi, t in f.calls() if callee_name(t) == VM + 'push' and len(t['args']) > 1]
+    if not pushes:
+        raise Broken('C06', 'anchor', 'closure_impl pushes nothing')
+    for bi, t in pushes:
+        pl = op_place(t['args'][1])
+        roots = org.get(pl['l'], ()) if pl is not None else ()
+        fresh = [q for q in roots if q[0][0] == 'call' and ('new_root_obj_closure' in q[0][2] or q[0][2].endswith(('Root::<T>::new', 'ObjClosure::new')))]
+        other = [q for q in roots if q not in fresh]
+        r.check(bool(fresh) and not other, 'closure_impl / the pushed closure is the new allocation',
+                'closure_impl can push a closure that was not allocated by this execution of the instruction (origins: %s): a remembered closure carries the captured variables of '
+                'the activation that made it' % sorted({(q[0][2].rsplit('::', 1)[-1] if q[0][0] == 'call' else str(q[0])) for q in other}), f.loc(t.get('sp')))
 
 
 def scope_exit_choosers(w):
@@ -730,6 +753,32 @@ def s10(rep, w, prop='C06'):
             n += 1
             dom = f.dominators()
             checks = [b2 for b2, t2 in f.calls() if callee_name(t2) == 'yarel::scanner::Scanner::scan_token' and b2 in dom.get(bi, ())]
+            # ... and what was scanned is the text the token is made of: the scanner is built from a string with the same origins as the name
+            name_roots = {(q[0],) + tuple(x for x in q[1:] if not x.startswith('@') and x != '*') for q in qs}
+            same = False
+            for b2, t2 in f.calls():
+                n2 = callee_name(t2) or ''
+                if n2.startswith('yarel::scanner::Scanner::') and n2.rsplit('::', 1)[-1] in ('new', 'from_source') and t2['args'] and b2 in dom.get(bi, ()):
+                    p2 = op_place(t2['args'][0])
+                    src_roots = set()
+                    work = list(org.get(p2['l'], ())) if p2 is not None else []
+                    for _ in range(4):
+                        nxt = []
+                        for q in work:
+                            if q[0][0] == 'call' and strip_generics(q[0][2]).rsplit('::', 1)[-1] in ('to_string', 'to_owned', 'from', 'clone', 'into', 'to_str', 'as_str', 'to_lowercase'):
+                                a0 = f.blocks[q[0][1]]['t']['args']
+                                pa = op_place(a0[0]) if a0 else None
+                                nxt += list(org.get(pa['l'], ())) if pa is not None else []
+                            else:
+                                src_roots.add((q[0],) + tuple(x for x in q[1:] if not x.startswith('@') and x != '*'))
+                        work = nxt
+                    if name_roots and name_roots <= src_roots:
+                        same = True
+            if checks and not same:
+                r.bad('%s: the text scanned for reserved words is the text of the token' % f.path.replace(P, ''),
+                      '%s checks one string against the reserved words and names the variable after another (e.g. the file name with and without its extension): '
+                      'the name that is declared has not been through the scanner' % f.path, f.loc(t.get('sp')))
+                continue
             r.check(bool(checks), '%s: a token named by data is scanned for reserved words first' % f.path.replace(P, ''),
                     '%s builds a name token from a string that is not a compiler constant (e.g. the file name of an import path) and declares a variable with it without '
                     'passing it through the scanner: a module file called super / self shadows the compiler\'s hidden variable of that name' % f.path, f.loc(t.get('sp')))
